@@ -574,6 +574,15 @@ Definition c13_ok (t : trans) : bool :=
   && forallb (fun a' => Nat.leb (length (a_ends a')) (N.to_nat (a_max_round a') + 1) && Nat.leb 1 (length (a_ends a'))
                         && N.leb (a_max_round a') MaxExtendedRound) (st_auctions (t_post t)).
 
+(* the count of matched bids that the anti-sniping rule compares with ("the matching at the previous end time") is
+   recorded by blocks only: no message, allow-list call, transfer or listener change may alter it *)
+Definition c13_count (t : trans) : bool :=
+  match t_op t with
+  | OBlock _ _ | OFaultBlock _ _ _ | OGenesis => true
+  | _ => forallb (fun id => st_mlen (t_post t) id =? st_mlen (t_pre t) id) (ids_upto (st_aseq (t_post t) + 2))
+  end.
+Definition c13_all (t : trans) : bool := c13_ok t && c13_count t.
+
 (* ---------------------------------------------------------------- C15 genesis round trip *)
 Definition c15_ok (t : trans) : bool :=
   match t_op t with
@@ -840,14 +849,18 @@ Definition c05_grants (t : trans) : bool :=
 Definition c05_all (t : trans) : bool := c05_ok t && c05_grants t.
 
 (* C09, liveness of the payment: "in the first block at or after its release time".  A block that fails without an
-   injected fault and without a vetoing listener while an instalment is due leaves that instalment unpaid in the
-   first block at or after its release time (and in every later one: the chain has halted) *)
+   injected fault and without a vetoing listener while an instalment is due (or while a settlement is due, which pays
+   the proceeds of an auction without schedule and records the instalments of one with) leaves it unpaid in the first
+   block at or after its time (and in every later one: the chain has halted) *)
 Definition c09_live (t : trans) : bool :=
   match t_op t, t_class t with
   | OBlock tm _, KBlockErr | OBlock tm _, KPanic =>
       negb (no_veto (t_pre t) H_BeforeAllocated)
-      || forallb (fun a => negb (status_eqb (a_status a) VestingS)
-                           || forallb (fun v => negb ((v_time v <=? tm) && negb (v_released v))) (vqs_of (t_pre t) (a_id a)))
+      || forallb (fun a => match a_status a with
+                           | VestingS => forallb (fun v => negb ((v_time v <=? tm) && negb (v_released v))) (vqs_of (t_pre t) (a_id a))
+                           | Started => tm <? last_end a       (* a settlement is due: proceeds are to be paid or scheduled *)
+                           | _ => true
+                           end)
                  (st_auctions (t_pre t))
   | _, _ => true
   end.
@@ -864,7 +877,7 @@ Definition c08_all (t : trans) : bool := c08_ok t && pending_ok (t_post t).
 (* ---------------------------------------------------------------- all of them *)
 Definition all_checks : list (N * (trans -> bool)) :=
   [(1%N, c01_all); (2%N, c02_all); (3%N, c03_ok); (4%N, c04_all); (5%N, c05_all); (6%N, c06_ok); (7%N, c07_ok);
-   (8%N, c08_all); (9%N, c09_all); (10%N, c10_ok); (11%N, c11_ok); (12%N, c12_ok); (13%N, c13_ok);
+   (8%N, c08_all); (9%N, c09_all); (10%N, c10_ok); (11%N, c11_ok); (12%N, c12_ok); (13%N, c13_all);
    (15%N, c15_ok); (16%N, c16_ok); (17%N, c17_ok); (18%N, c18_ok); (19%N, c19_ok)].
 Definition failing (t : trans) : list N :=
   map fst (filter (fun c => negb (snd c t)) all_checks).
